@@ -86,10 +86,14 @@ class ServerSim:
         """Deliver one request; returns the response frames. Exceptions are recorded and re-raised."""
         n0 = len(self.bus.log)
         self.exc = None
+        # the interface hands every received frame over in one re-used buffer (overwritten once notify() returns)
+        rx = self.__dict__.setdefault("_rx", bytearray(8))
+        rx[:] = bytes(frame)
         try:
-            self.net.notify(self.rx, bytearray(frame), simenv.W.now)
+            self.net.notify(self.rx, rx, simenv.W.now)
         except Exception as e:  # noqa: BLE001
             self.exc = e
+        rx[:] = b"\xEE" * len(rx)
         return [d for (src, cid, d, rem, ext) in self.bus.log[n0:] if cid == self.tx]
 
     def real_store(self):
@@ -119,6 +123,9 @@ class RefLink:
         self.resp_filter = resp_filter    # f(frame) -> list of frames for the client
         self.client_frames = []
         self.server_frames = []
+        self.delay = 0.0                  # a slow server: every answer reaches the client this much later (virtual time)
+        self.reuse_rx = False             # an interface that hands every received frame over in ONE re-used bytearray
+        self._rx = bytearray(8)
         self.net = canopen.Network()
         self.net.bus = self
         self.channel_info = "reflink"
@@ -147,8 +154,17 @@ class RefLink:
             self.server_frames.append(r)
             outs = [r] if self.resp_filter is None else self.resp_filter(r)
             for o in outs:
-                self.net.listeners[0].on_message_received(
-                    self._can.Message(arbitration_id=cid, data=bytes(o), is_extended_id=False, timestamp=simenv.W.now))
+                if self.delay:
+                    simenv.W.at(self.delay, lambda cid=cid, o=o: self.net.listeners[0].on_message_received(
+                        self._can.Message(arbitration_id=cid, data=bytes(o), is_extended_id=False, timestamp=simenv.W.now)))
+                    continue
+                m = self._can.Message(arbitration_id=cid, data=bytes(o), is_extended_id=False, timestamp=simenv.W.now)
+                if self.reuse_rx:
+                    self._rx[:] = bytes(o)
+                    m.data = self._rx
+                self.net.listeners[0].on_message_received(m)
+                if self.reuse_rx:
+                    self._rx[:] = b"\xEE" * len(self._rx)      # the buffer is the interface's again
 
     def shutdown(self):
         pass
